@@ -95,7 +95,7 @@ type c16Offer struct {
 
 func c16Offers() []c16Offer {
 	var out []c16Offer
-	for _, q := range []string{"?OTR?", "?OTRv?", "?OTRv2?", "?OTRv3?", "?OTRv23?", "?OTRv32?", "?OTR?v2?", "?OTRv4?", "?OTRv24x?", "?OTRv2? friendly text", "?OTR?v?"} {
+	for _, q := range []string{"?OTR?", "?OTRv?", "?OTRv2?", "?OTRv3?", "?OTRv23?", "?OTRv32?", "?OTR?v2?", "?OTRv4?", "?OTRv24x?", "?OTRv2? friendly text", "?OTR?v?", "?OTRv2? do you speak OTR 3?", "?OTRv3? or version 2?", "?OTRv? 23?", "?OTR? v23?", "?OTRv2?\n3?", "?OTR?v3? 2? 1?"} {
 		q := q
 		out = append(out, c16Offer{Name: q, Kind: "query", Msg: func(*verifPrincipal, int64) []byte { return []byte(q) }, Offered: func(*verifPrincipal) []int { return refQueryVersions(q) }})
 	}
